@@ -189,6 +189,9 @@ def run(tier, seed):
         # the mirror image of the first world (which atom is shifted last must not matter), with 3 atoms and integer ids
         (corner("unit", prefix=A.GR1, qubits=3, qid_alias={"q0": 2, "q1": 0, "q2": 1}, name="unit-mirror-int-ids"),
          A.phases(eom=False), 3),
+        # a second channel on the same basis DECLARED after phase shifts were accumulated on it: the references are per basis, not per channel
+        (corner("unit", prefix=[("declare", "g", "rydberg_global")], name="unit-second-channel-declared-mid-sequence"),
+         A.phases(eom=False) + [("declare", "r", "rydberg_local", "q0"), ("declare", "r", "rydberg_local", "q1")], 3),
     ]
     if tier == "thorough":
         plan = [(w, a, d + 1) for w, a, d in plan]
